@@ -140,7 +140,41 @@ func c06ZoneOf(addr uint64, oLen uint64) string {
 
 var c06Pat [3][]byte // o, w, a patterns (grown on demand, never zero bytes)
 
+// c06Mode selects the section contents: 0 = never-zero pattern; 1 = all zero; 2 = 100 data bytes then
+// zeros; 3 = 100 data bytes, zeros, 100 data bytes (zeros in the middle); 4 = 4097 data bytes then zeros;
+// 5 = zeros then one data byte at the very end
+var c06Mode int
+var c06ModeCache = map[[3]int][]byte{}
+
 func c06Data(which int, n int) []byte {
+	if c06Mode != 0 {
+		k := [3]int{which, n, c06Mode}
+		if b, ok := c06ModeCache[k]; ok {
+			return b
+		}
+		m := c06Mode
+		c06Mode = 0
+		pat := c06Data(which, n)
+		c06Mode = m
+		b := make([]byte, n)
+		switch m {
+		case 2:
+			copy(b, pat[:min(n, 100)])
+		case 3:
+			copy(b, pat[:min(n, 100)])
+			if n > 100 {
+				copy(b[n-100:], pat[n-100:])
+			}
+		case 4:
+			copy(b, pat[:min(n, 4097)])
+		case 5:
+			if n > 0 {
+				b[n-1] = pat[n-1]
+			}
+		}
+		c06ModeCache[k] = b
+		return b
+	}
 	if len(c06Pat[which]) < n {
 		b := make([]byte, n)
 		for i := range b {
@@ -198,6 +232,7 @@ type c06Case struct {
 	A    int    `json:"a"`
 	Kind string `json:"kind,omitempty"` // malformed: prefix | odecl | wdecl | cdecl | tail
 	N    int64  `json:"n,omitempty"`
+	M    int    `json:"m,omitempty"` // content mode (c06Mode)
 }
 
 var c06Code = []byte{0, 0, 3, 51, 7, 0, 0x05} // tiny valid inner blob: load_imm r7; trap
@@ -222,8 +257,10 @@ var c06ZeroPage = make([]byte, ZP)
 
 func c06Run(r *vlib.Run, c c06Case) {
 	var blob []byte
+	c06Mode = c.M
+	defer func() { c06Mode = 0 }()
 	switch c.Fam {
-	case "size", "reentry":
+	case "size", "reentry", "zeros":
 		blob = c06Blob(c.O, c.W, c.Z, c.S, -1, -1, -1, c06Code, 0)
 	default:
 		switch c.Kind {
@@ -268,6 +305,9 @@ func c06Run(r *vlib.Run, c c06Case) {
 	shape := fmt.Sprintf("o=%s w=%s z=%s s=%s a=%s", c06SizeClass(uint64(c.O)), c06SizeClass(uint64(c.W)), c06SizeClass(c.Z*c06ZP), c06SizeClass(c.S), c06SizeClass(uint64(c.A)))
 	if c.Fam == "malformed" {
 		shape = "malformed:" + c.Kind
+	}
+	if c.Fam == "zeros" {
+		shape = fmt.Sprintf("content-mode=%d %s", c.M, shape)
 	}
 	shape = c06ClassPrefix + shape
 	if pnk {
@@ -610,6 +650,22 @@ func TestVerif_C06(t *testing.T) {
 			}
 			r.Space(1)
 			c06Run(r, c)
+		}
+	}
+	// zero-content lattice: sections that are all zero, end in 1..3 whole pages of zeros, or have
+	// whole zero pages in the middle (contents are data: a zero byte is as good as any other)
+	for m := 1; m <= 5; m++ {
+		for _, o := range []int{4096, 4097, 8192, 12289, 16389} {
+			for _, w := range []int{4096, 4097, 8192, 12289, 16389} {
+				for _, a := range []int{4096, 4097, 8192, 12289, 16389} {
+					idx++
+					if !r.Mine(idx) {
+						continue
+					}
+					r.Space(1)
+					c06Run(r, c06Case{Fam: "zeros", O: o, W: w, Z: 1, S: 4096, A: a, M: m})
+				}
+			}
 		}
 	}
 	// re-entry lattice: every zone with a partial last page, run after an unrelated invocation
